@@ -50,6 +50,10 @@ mod netconf;
 mod policies;
 mod task;
 
+#[cfg(bgpfu_verif)]
+#[allow(missing_docs, clippy::missing_errors_doc, clippy::missing_panics_doc)]
+pub mod verif;
+
 // silence unused dev-dependency warnings
 #[cfg(test)]
 mod deps {
